@@ -8,6 +8,8 @@ package javascript
 // `%x` placeholders are names (lower case: locals, %K: property names, %M: member names,
 // %G: file-scope names, %f/%C: the declared function/class); a trailing `~` forbids a line
 // break after the token, `++!`/`--!` are postfix operators (no line break before).
+// A template literal is ONE token of the notation (copied verbatim by the minifier); the template idioms put callbacks
+// with block bodies, object literals and '}' inside strings/regexes into ${...} and use locals behind them.
 // Gaps between tokens are random (nothing, blanks, line breaks, comments) under a
 // conservative rule that is independent of needsSep.
 
@@ -29,6 +31,8 @@ type c33Idiom struct {
 	decl    string // declaration template
 	call    string // call expression template ("" = none)
 	hostile string // known-class feature this idiom carries ("" = must work)
+	// gen, when set, builds decl and call afresh for every use
+	gen func(r *rand.Rand) (decl, call string)
 }
 
 var c33Idioms = []c33Idiom{
@@ -45,6 +49,16 @@ var c33Idioms = []c33Idiom{
 		"return~ [ %s , %u , `a\\`b` , `//·x·/*·y·*/` , '`' + \"'\" , %p + '' + %q ] ; }"},
 	{name: "template", call: "%f ( 1 , 'two' )", decl: "function %f ( %p , %q ) { let %t = `lit···//··${·%p·}··/*·${·%q·+·1·}·*/·'x'·\"y\"` ; const %item = { %K1 : %p } ; " +
 		"return~ [ %t , `${%p}${%q}` , `a\\`b${·%p·}` , `<td>${·helper(·%p·)·}</td><td>${·%item.%K1·}</td>` , `${·[·%p·,·%q·]·.·length·}` ] ; }"},
+	// interpolations that contain braces of their own (callback bodies, object literals, a '}' inside a string or a
+	// regex) and use locals of the enclosing function AFTER such a brace; several interpolations in one template
+	{name: "template-callback", call: "%f ( [ { %K1 : 1 } , { %K1 : 2 } , { %K1 : 4 } ] , 10 )", decl: "function %f ( %rows , %base ) { const %sep = '|' ; let %lim = 1 ; var %top = 3 ; " +
+		"return~ [ `t=${·%rows.reduce(function·(%acc,·%it)·{·return·%acc·+·%it.%K1;·},·%base)·}·of·${·%rows.length·}` , " +
+		"`${%rows.filter((%e)·=>·{·return·%e.%K1·>·1;·}).map(%e·=>·%e.%K1).join(%sep)}` , " +
+		"`n=${·%rows.filter(function·(%e)·{·if·(%e.%K1·>·%lim)·{·return·true;·}·return·%e.%K1·>·%top;·}).length·-·%lim·}${·%top·}` ] ; }"},
+	{name: "template-object", call: "%f ( 5 , 'q' )", decl: "function %f ( %p , %q ) { let %t = 'x' ; const %u = 2 ; var %w = [ 8 ] ; " +
+		"return~ [ `${·JSON.stringify({·%K1:·1,·%K2:·{·%K3:·2·}·})·+·%p·}` , `a${·({·%K1:·7·}).%K1·*·%u·}b${·%q·}c${·'}'·+·%t·}d${·/[}]/.source·+·%w[0]·}` , " +
+		"`{${·typeof·function·()·{}·}}\\${x}` ] ; }"},
+	{name: "template-mixed", gen: c33GenTemplateIdiom},
 	{name: "object", call: "%f ( 1 , 2 )", decl: "function %f ( %p , %q ) { const %o = { %K1 : %p , %K2 : %q , 'k-3' : 1 , [ 'c' + %p ] : 2 , 7 : 3 , in : %p , of : %q , new : 1 , length : 2 } ; const %o2 = { %p , %q } ; " +
 		"const %o3 = { %p , %K1 : %q , ... %o } ; let %r = %o . %K1 + %o ?. %K2 + %o [ '%K1' ] + %o2 . %p + %o3 . %K1 ; " +
 		"return~ [ %r , %o , %o2 , %o3 , { %K1 : %p ? %q : %p , %K2 : [ %p , %q ] , %K3 : { %q } } , Object . keys ( { %q , %p } ) , { %K3 : %p } . %K3 , [ { %p } ] ] ; }"},
@@ -82,8 +96,111 @@ var c33Idioms = []c33Idiom{
 		decl: "function %f ( %o ) { const { %K1 = 5 , %K2 } = %o ; return~ [ %K1 , %K2 ] ; }"},
 	{name: "nested-template", hostile: "nested-template", call: "%f ( 1 , 2 )",
 		decl: "function %f ( %p , %q ) { return~ `a${·%p·?·`<b>··${·%q·}··</b>`·:·''·}z` ; }"},
+	{name: "nested-template-callback", hostile: "nested-template", call: "%f ( 1 , 2 )",
+		decl: "function %f ( %p , %q ) { return~ `a${·[·%p·].map(function·(%e)·{·return·`<i>··${·%e·}··</i>`;·}).join('')·+·%q·}z` ; }"},
 	{name: "block-var", hostile: "block-var-at-file-scope", call: "%f ( 1 )",
 		decl: "if ( gShared ) { var %G1 = 1 ; } function %f ( %p ) { return~ %p + %G1 ; }"},
+}
+
+// ---- generated template-literal idiom ("template-mixed") ----
+// Expressions placed inside ${...}. `%L` is replaced by a local of the enclosing function; the other placeholders
+// are names bound inside the expression itself. Group A has a closing brace (or a '}' in a string / regex) BEFORE a
+// use of `%L`; group B are plain expressions.
+var c33InterpBraced = []string{
+	"%items.reduce(function·(%acc,·%it)·{·return·%acc·+·%it.%K1;·},·%L)",
+	"%items.map((%e)·=>·{·return·%e.%K1·*·2;·}).join(%L)",
+	"JSON.stringify({·%K2:·1,·%K3:·{·%K1:·2·}·})·+·%L",
+	"[1,·2,·3].filter(function·(%n)·{·if·(%n·>·1)·{·return·true;·}·return·%L·===·%n;·}).length·+·%L",
+	"(()·=>·{·let·%w·=·5;·return·%w;·})()·+·%L",
+	"'}'·+·%L",
+	"\"{}\"·+·%L·+·'${'",
+	"({·%K1:·7·}).%K1·+·%L",
+	"%items.map(function·(%e)·{·return·{·%K2:·%e.%K1·};·}).length·?·%L·:·0",
+	"((%a1,·%b1)·=>·{·return·%a1·+·%b1;·})(1,·%L)",
+	"[%L].map(%e·=>·({·%K1:·%e·}))[0].%K1·+·'/'·+·%L",
+	"/[}]/.source·+·%L",
+	"typeof·function·()·{}·+·%L",
+	"[%L,·{·%K3:·%L·}.%K3,·%L].length·+·%L",
+	"(function·()·{·try·{·throw·1;·}·catch·(%e)·{·return·%e;·}·})()·+·%L",
+}
+var c33InterpPlain = []string{"%L", "%L·+·1", "helper(%L)", "%L·?·'y'·:·'n'", "[%L,·%L].length", "%items.length", "String(%L).length"}
+var c33TplText = []string{"", "", "·", "<td>", "</td>", "}", "{", "$", "\\${x}", "·//·", "'", "{·}", "$·{", "·=·", "/*", "\"", "·}·"}
+
+// c33GenTemplateIdiom: a function with locals declared in several ways (parameters, let/const/var, destructuring,
+// a loop variable, an arrow-function parameter) that returns template literals built from the fragments above.
+// Each `%L` takes the next local of a shuffled list, so that many locals are used in one position only.
+func c33GenTemplateIdiom(r *rand.Rand) (decl, call string) {
+	pool := []string{"%L1", "%L2", "%L3", "%L4", "%L5", "%L6", "%L7"}
+	r.Shuffle(len(pool), func(i, j int) { pool[i], pool[j] = pool[j], pool[i] })
+
+	next := func() string {
+		if len(pool) == 0 {
+			return "%L" + string(rune('1'+r.Intn(7)))
+		}
+
+		n := pool[0]
+		pool = pool[1:]
+
+		return n
+	}
+
+	tpl := func(first string) string {
+		var sb strings.Builder
+
+		sb.WriteString("`")
+		sb.WriteString(c33TplText[r.Intn(len(c33TplText))])
+
+		for k, n := 0, 1+r.Intn(3); k < n; k++ {
+			var e string
+			if r.Intn(4) == 0 {
+				e = c33InterpPlain[r.Intn(len(c33InterpPlain))]
+			} else {
+				e = c33InterpBraced[r.Intn(len(c33InterpBraced))]
+			}
+			// the LAST %L of a braced fragment is the one behind the brace: give it `first` (a local used nowhere else)
+			parts := strings.Split(e, "%L")
+			e = parts[0]
+
+			for k, part := range parts[1:] {
+				l := ""
+				if k == len(parts)-2 && first != "" {
+					l, first = first, ""
+				} else {
+					l = next()
+				}
+
+				e += l + part
+			}
+
+			pad := []string{"", "·", "··"}[r.Intn(3)]
+			sb.WriteString("${" + pad + e + pad + "}")
+			sb.WriteString(c33TplText[r.Intn(len(c33TplText))])
+		}
+
+		sb.WriteString("`")
+
+		return sb.String()
+	}
+
+	var sb strings.Builder
+
+	sb.WriteString("function %f ( %items , %L1 , %L2 ) { let %L3 = 3 ; const %L4 = 'c4' ; var %L5 = [ 5 ] ; let { %K4 : %L6 } = { %K4 : 6 } ; const [ %L7 ] = [ 'c7' ] ; const %r = [ ] ; ")
+
+	for k, n := 0, 1+r.Intn(3); k < n; k++ {
+		sb.WriteString("%r . push ( " + tpl("") + " ) ; ")
+	}
+
+	if r.Intn(2) == 0 {
+		sb.WriteString("for ( let %L8 = 0 ; %L8 < 2 ; %L8 ++! ) { %r . push ( " + tpl("%L8") + " ) ; } ")
+	}
+
+	if r.Intn(2) == 0 {
+		sb.WriteString("%r . push ( ( ( %L9 ) => { return~ " + tpl("%L9") + " ; } ) ( 9 ) ) ; ")
+	}
+
+	sb.WriteString("return~ %r ; }")
+
+	return sb.String(), "%f ( [ { %K1 : 1 } , { %K1 : 2 } ] , 10 , 'two' )"
 }
 
 var c33PH = regexp.MustCompile(`%[A-Za-z][A-Za-z0-9]*`)
@@ -292,6 +409,10 @@ func c33GenProgram(r *rand.Rand, allowHostile bool) c33Prog {
 	calls := []string{}
 
 	for i, id := range chosen {
+		if id.gen != nil {
+			id.decl, id.call = id.gen(r)
+		}
+
 		d, c := c33Expand(r, id, i+r.Intn(3)*26)
 		toks = append(toks, d...)
 		p.Idioms = append(p.Idioms, id.name)
